@@ -17,35 +17,64 @@ def prepare(repo):
     s = open(lib).read()
     if 'mod verif_kani;' not in s:
         s += '\n#[cfg(kani)]\nmod verif_kani;\n'
-        # harnesses use unsafe zeroed values for opaque keys: lib.rs forbids unsafe, relax under cfg(kani) only
+        # harnesses use an unsafe zeroed value for an opaque key: lib.rs forbids unsafe, relaxed under cfg(kani) only
         s = s.replace('#![forbid(unsafe_code)]', '#![cfg_attr(not(kani), forbid(unsafe_code))]')
         open(lib, 'w').write(s)
     return dst
 
 
-def run(repo, harnesses, timeout=1500):
+def run(repo, harnesses, timeout=2400, jobs=8):
     dst = prepare(repo)
-    out = {}
     env = dict(os.environ, CARGO_NET_OFFLINE='true')
+    cmd = ['cargo', 'kani', '--target-dir', TGT, '-Z', 'stubbing', '-j', str(jobs), '--output-format', 'terse']
     for h in harnesses:
-        t0 = time.time()
-        cmd = ['cargo', 'kani', '--target-dir', TGT, '-Z', 'stubbing', '--harness', h]
-        try:
-            p = subprocess.run(cmd, cwd=dst, env=env, capture_output=True, text=True, timeout=timeout)
-            txt = p.stdout + p.stderr
-            rc = p.returncode
-        except subprocess.TimeoutExpired as e:
-            txt = (e.stdout or '') + (e.stderr or '') if isinstance(e.stdout, str) else 'timeout'
-            rc = 124
+        cmd += ['--harness', h]
+    t0 = time.time()
+    try:
+        p = subprocess.run(cmd, cwd=dst, env=env, capture_output=True, text=True, timeout=timeout)
+        txt = p.stdout + '\n' + p.stderr
+        rc = p.returncode
+    except subprocess.TimeoutExpired as e:
+        so = e.stdout.decode() if isinstance(e.stdout, bytes) else (e.stdout or '')
+        se = e.stderr.decode() if isinstance(e.stderr, bytes) else (e.stderr or '')
+        txt = so + '\n' + se + '\nTIMEOUT'
+        rc = 124
+    wall = time.time() - t0
+    out = {}
+    # with -j the output of each worker is prefixed "Thread N: "; a worker prints "Checking harness X..." and later its result block
+    seen = {}
+    cur = {}
+    parts = re.split(r'(?m)^Thread (\d+): ', txt)
+    if len(parts) > 1:
+        for k in range(1, len(parts), 2):
+            th, seg = parts[k], parts[k + 1]
+            mm = re.match(r'Checking harness (\S+?)\.\.\.', seg)
+            if mm:
+                cur[th] = mm.group(1).split('::')[-1]
+                seen.setdefault(cur[th], '')
+                seg = seg[mm.end():]
+            if th in cur:
+                seen[cur[th]] += seg
+    else:
+        for b in re.split(r'(?m)^Checking harness ', txt)[1:]:
+            seen[b.split('...', 1)[0].strip().split('::')[-1]] = b
+    for h in harnesses:
+        b = seen.get(h)
         st = 'undecided'
-        if 'VERIFICATION:- SUCCESSFUL' in txt:
-            st = 'ok'
-        elif 'VERIFICATION:- FAILED' in txt:
-            st = 'fail'
-        failed = re.findall(r'Failed Checks: (.*)\n\s*File: "([^"]+)", line (\d+), in (\S+)', txt)
-        out[h] = {'status': st, 'rc': rc, 'seconds': round(time.time() - t0, 1), 'cmd': 'CARGO_NET_OFFLINE=true ' + ' '.join(cmd),
-                  'failed_checks': [{'check': a, 'file': b, 'line': int(c), 'fn': d} for a, b, c, d in failed],
-                  'output_tail': txt[-3000:]}
+        failed = []
+        secs = None
+        if b is not None:
+            if 'VERIFICATION:- SUCCESSFUL' in b:
+                st = 'ok'
+            elif 'VERIFICATION:- FAILED' in b:
+                st = 'fail'
+            failed = re.findall(r'Failed Checks: (.*)\n\s*File: "([^"]+)", line (\d+), in (\S+)', b)
+            mm = re.search(r'Verification Time: ([0-9.]+)s', b)
+            secs = float(mm.group(1)) if mm else None
+        out[h] = {'status': st, 'rc': rc, 'seconds': secs, 'cmd': 'CARGO_NET_OFFLINE=true ' + ' '.join(cmd),
+                  'failed_checks': [{'check': a, 'file': b2, 'line': int(c), 'fn': d} for a, b2, c, d in failed],
+                  'output_tail': (b or txt)[-1500:]}
+    out['_wall_s'] = round(wall, 1)
     return out
 
 
